@@ -289,8 +289,142 @@ fn run_c04_big_members(rep: &mut Report, rng: &mut Rng, thorough: bool) {
     }
 }
 
+/// what the backward member scan of `LZIPReaderMT::new` answers for these bytes, in the vocabulary of the
+/// driver's `lzip.scan` (model `Guards.scanFile`)
+pub fn mt_scan_answer(bytes: &[u8]) -> String {
+    let b = bytes.to_vec();
+    match guard(|| Ok(lzma_rust2::LZIPReaderMT::new(BudgetCursor::new(b, 300_000), 1)?.member_count())) {
+        Outcome::Ok(n) => format!("ok {n}"),
+        Outcome::Err(k, _) => format!("err {}", kind_name(k)),
+        Outcome::Panic(_) => "panic".to_string(),
+    }
+}
+
+/// Bytes in FRONT of the first member (the backward scan of LZIPReaderMT arrives there last, the forward reader
+/// first): 1..=25 bytes of junk in front of valid single- and multi-member files, and multi-member files whose first
+/// member is cut down to its last 1..=25 bytes, through LZIPReader and LZIPReaderMT.  No tolerance applies here
+/// (the format ignores bytes only AFTER a complete member): success with anything but the full original data is
+/// a failure of the property.  The reader model and the scan model must give the real readers' answers.
+fn run_c04_leading(rep: &mut Report, rng: &mut Rng, thorough: bool) {
+    let mut files: Vec<ValidFile> = vec![];
+    let rounds = if thorough { 6 } else { 2 };
+    for round in 0..rounds {
+        let mut r = rng.fork();
+        // single member
+        let len = r.range(1, if thorough { 2000 } else { 300 }) as usize;
+        let kind = *r.pick(&["text", "random", "runs"]);
+        let d = gen_data(&mut r, kind, len);
+        if let Outcome::Ok(c) = lzip_compress(&d, &small_lz(&mut r), None, &[d.len()]) {
+            files.push(ValidFile { name: format!("lzip-lead-single-{round}"), fmt: "lzip", bytes: c, data: d, check: 1 });
+        }
+        // 2..=4 members, every one with data (so that a lost member is visible in the output)
+        let k = r.range(2, 4) as usize;
+        let (mut bytes, mut data, mut first) = (vec![], vec![], 0usize);
+        for j in 0..k {
+            let l = r.range(1, if thorough { 1500 } else { 200 }) as usize;
+            let d = gen_data(&mut r, ["text", "periodic", "random", "runs"][j % 4], l);
+            if let Outcome::Ok(c) = lzip_compress(&d, &small_lz(&mut r), None, &[d.len()]) {
+                if bytes.is_empty() {
+                    first = c.len();
+                }
+                bytes.extend(c);
+                data.extend(d);
+            }
+        }
+        files.push(ValidFile { name: format!("lzip-lead-members{k}-{round}-first{first}"), fmt: "lzip", bytes, data, check: 1 });
+        // the 3-member shape of the finding: 10000 bytes in members of 4096 + 4096 + 1808 (LZIPWriter's member size)
+        if round == 0 {
+            let d = gen_data(&mut r, "text", 10000);
+            let mut lz = small_lz(&mut r);
+            lz.dict = 4096;
+            if let Outcome::Ok(c) = lzip_compress(&d, &lz, Some(4096), &[d.len()]) {
+                files.push(ValidFile { name: "lzip-lead-writer-members-10000".into(), fmt: "lzip", bytes: c, data: d, check: 1 });
+            }
+        }
+    }
+    for f in &files {
+        rep.count("file.lzip-leading");
+        let cap = f.data.len() * 2 + 4096;
+        // first member's size: walk the trailers from the end
+        let mut starts = vec![];
+        let mut end = f.bytes.len();
+        while end >= 26 {
+            let ms = u64::from_le_bytes(f.bytes[end - 8..end].try_into().unwrap()) as usize;
+            if ms == 0 || ms > end {
+                break;
+            }
+            end -= ms;
+            starts.push(end);
+        }
+        starts.reverse();
+        if starts.first() != Some(&0) {
+            rep.fail("valid-file-rejected", "generator: the members of a written LZIP file do not tile it", json!({"file": f.name}));
+            continue;
+        }
+        rep.model(format!("lzip.scan in={}", hex(&f.bytes)), format!("ok {}", starts.len()));
+        if mt_scan_answer(&f.bytes) != format!("ok {}", starts.len()) {
+            rep.fail("valid-file-rejected", &format!("LZIPReaderMT::new on a valid file of {} members: {}", starts.len(), mt_scan_answer(&f.bytes)), json!({"file": f.name}));
+        }
+        let mut mutants: Vec<(String, Vec<u8>)> = vec![];
+        for n in 1..=25usize {
+            // junk of several kinds: random, zeros, the magic (whole / a fragment / repeated), the tail of a real trailer
+            let kinds: &[&str] = if thorough { &["random", "zero", "magic", "trailer", "text"] } else { &["random", "magic", "trailer"] };
+            for &jk in kinds {
+                let junk: Vec<u8> = match jk {
+                    "random" => rng.bytes(n),
+                    "zero" => vec![0u8; n],
+                    "magic" => b"LZIP".iter().cycle().take(n).cloned().collect(),
+                    "trailer" => f.bytes[f.bytes.len() - n..].to_vec(),
+                    _ => gen_data(rng, "text", n),
+                };
+                let mut m = junk;
+                m.extend(&f.bytes);
+                mutants.push((format!("leading-junk-{jk}+{n}"), m));
+            }
+            if starts.len() >= 2 && starts[1] > n {
+                // all but the last n bytes of the first member deleted
+                mutants.push((format!("first-member-cut-to-last+{n}"), f.bytes[starts[1] - n..].to_vec()));
+            }
+        }
+        for (what, m) in &mutants {
+            let detail = || json!({"file": f.name, "format": "lzip", "mutation": what, "file_len": f.bytes.len(), "members": starts.len(), "mutant_hex": if m.len() <= 400 { hex(m) } else { format!("fnv:{}", fnv(m)) }});
+            let class = what.split('+').next().unwrap_or(what).to_string();
+            // LZIPReader
+            let o = real_decode("lzip", false, m, cap);
+            rep.count(&format!("leading.outcome.{}", o.class()));
+            if m.len() <= 3000 {
+                rep.model(model_req("lzip", false, m, cap), expected("lzip", false, m, cap));
+                rep.model(format!("lzip.scan in={}", hex(m)), mt_scan_answer(m));
+            }
+            match &o {
+                Outcome::Ok((out, _)) if out != &f.data => rep.fail(&format!("corrupt-accepted:lzip:{class}"), &format!("LZIPReader decoded a file with damaged front successfully to different data ({} bytes, original {})", out.len(), f.data.len()), detail()),
+                Outcome::Panic(p) => rep.fail("corrupt-panic:lzip", &format!("reader panicked on corrupted input: {p}"), detail()),
+                _ => {}
+            }
+            // LZIPReaderMT
+            let m2 = m.clone();
+            let workers = *rng.pick(&[1u32, 2, 4]);
+            let o = guard(|| {
+                let mut r = lzma_rust2::LZIPReaderMT::new(BudgetCursor::new(m2, 200_000), workers)?;
+                read_all_sched(&mut r, &[4096], cap)
+            });
+            rep.count(&format!("leading.outcome-mt.{}", o.class()));
+            match &o {
+                Outcome::Ok(out) if out != &f.data => rep.fail(&format!("corrupt-accepted:lzip-mt:{class}"), &format!("LZIPReaderMT decoded a file with damaged front successfully to different data ({} bytes, original {})", out.len(), f.data.len()), detail()),
+                Outcome::Ok(_) => rep.count("leading.mt-accepted-with-original-data"),
+                Outcome::Err(_, e) if e.contains("call-budget-exhausted") => rep.fail("decoder-hang:lzip-mt", "LZIPReaderMT made more than 200000 read/seek calls on a small corrupted file (no progress)", detail()),
+                Outcome::Panic(p) => rep.fail("corrupt-panic:lzip-mt", &format!("LZIPReaderMT panicked on corrupted input: {p}"), detail()),
+                Outcome::Err(..) => {}
+            }
+            rep.evaluations += 2;
+        }
+        rep.case(format!("leading:{}", f.name), true, || json!({"file": f.name, "len": f.bytes.len(), "members": starts.len(), "mutants": mutants.len()}));
+    }
+}
+
 pub fn run_c04(rep: &mut Report, rng: &mut Rng, thorough: bool) {
     run_c04_big_members(rep, &mut rng.fork(), thorough);
+    run_c04_leading(rep, &mut rng.fork(), thorough);
     let files = valid_files(rng, if thorough { 8 } else { 2 }, if thorough { 1200 } else { 120 });
     for f in &files {
         rep.count(&format!("file.{}", f.fmt));
